@@ -25,15 +25,13 @@ def c29(tier, seed):
     jobs.append(J(TUP, "VerifK29aParsePrint", len=8, timeout_ms=120000))
     jobs.append(J(TUP, "VerifK29bSplitObjectRelation", o=4, r=3, timeout_ms=120000))
     jobs.append(J(TUP, "VerifK29bUserParts", len=5 if q else 7, timeout_ms=120000))
-    if not q:
-        jobs.append(J(TUP, "VerifK29aRoundTrip", obj=5, rel=3, usr=6, ascii=1, timeout_ms=600000))
-        jobs.append(J(TUP, "VerifK29aParsePrint", len=12, ascii=1, timeout_ms=600000))
+    # (thorough jobs with obj=5/rel=3/usr=6 and 12-byte strings ran past the 45-minute job budget: not claimed)
     return jobs
 
 
 def c14(tier, seed):
     q = tier == "quick"
-    n = 3 if q else 5
+    n = 3 if q else 4  # 5 items (ReadPageFollow with 6) did not finish within the job budget: reduced, not claimed
     tok = 2 if q else 3
     jobs = [
         J(MEM, "VerifK14aReadPageAnyToken", n=n, tok=tok, timeout_ms=180000),
@@ -109,7 +107,7 @@ SPEC = {
     "C14": {
         "jobs": c14,
         "level_text": "bounded symbolic execution of the memory backend's paginated reads (ReadPage, ListStores, ReadAuthorizationModels): for every item count <= N, every page size and EVERY continuation-token byte string up to the bound the solver shows the call either rejects the token or returns the contiguous page at the (clamped) position in the documented order with the exact follow-up token; following issued tokens visits every item once. A panic on any path is a violation.",
-        "level_note": "bounds: N<=3 (quick) / 5 items, tokens <= 2/3 arbitrary bytes, page size 1..N+1; memory backend only (SQL backends are query strings executed by an external engine: outside); strconv.Atoi/Itoa are the real code; trusted: engine semantics, z3",
+        "level_note": "bounds: N<=3 (quick) / 4 items (follow-up chain: N+1), tokens <= 2/3 arbitrary bytes, page size 1..N+1; memory backend only (SQL backends are query strings executed by an external engine: outside); strconv.Atoi/Itoa are the real code; trusted: engine semantics, z3",
         "assumptions": ["forged tokens outside [0,n] may be clamped (what ListStores/ReadAuthorizationModels do) but never restart the listing", "tracing (otel) calls are no-ops"],
         "outside": ["sqlite/postgres/mysql pagination", "ReadChanges token/type binding (commands layer) until K14b is registered", "data sets larger than the bound"],
     },
